@@ -11,6 +11,11 @@
   Allocation is a value: every `make` / `string(b)` / `append` growth is charged to `St.alloc` with
   the size the Go code passes (element count × element size; element sizes are regenerated facts).
   `make` with a size the runtime refuses is `panic`.
+
+  Index and reslice expressions on the Chunk's buffer are **partial**: `idxP`, `sliceP`, `sliceFromP`
+  and the cursor step `advanceP` yield `panic` when out of range, like `b[i]` / `b[lo:hi]` in Go.  The
+  Go guards in front of them are explicit tests of the model; that they suffice is proved in
+  XMT/DecodeSlice.lean (and that they are needed in XMT/DecodeGuardsMatter.lean).
 -/
 import XMT.Base
 import XMT.Generated.Facts
@@ -33,14 +38,14 @@ structure St where
   rest : Bytes          -- unread bytes of the Chunk (`c.buf[c.rpos:]`)
   alloc : Nat := 0      -- bytes requested from the allocator so far
   out : List Tok := []  -- primitive reads, most recent first
-  deriving Repr
+  deriving Repr, DecidableEq
 
 inductive Out (α : Type) where
   | ok (a : α) (s : St)
   | err (e : Err) (s : St)
   | panic (site : String)
   | hang
-  deriving Repr
+  deriving Repr, DecidableEq
 
 def D (α : Type) := St → Out α
 
@@ -73,30 +78,93 @@ def mk (n : Int) (size : Nat) (site : String) : D Unit := fun s =>
   else if n.toNat * size > maxAlloc then .panic ("makeslice: len out of range: " ++ site)
   else .ok () { s with alloc := s.alloc + n.toNat * size }
 
+/-! ### the buffer: index and reslice expressions
+
+The state keeps `rest = c.buf[c.rpos:]`.  Every index expression `c.buf[c.rpos+i]` and every reslice
+`c.buf[c.rpos+lo : c.rpos+hi]` / `c.buf[c.rpos+lo:]` of the Go code is one of the primitives below and
+**panics** when it is out of range, exactly as the Go runtime does ("index out of range" / "slice
+bounds out of range").  The guards of the Go code (`checkBounds`, `n < c.rpos+int(l)`, `Empty()`) are
+explicit tests in front of them, where the Go code has them; nothing else keeps them in range. -/
+
+/-- `c.buf[c.rpos+i]` -/
+def idxP (i : Nat) (site : String) : D UInt8 := fun s =>
+  match s.rest[i]? with
+  | some v => .ok v s
+  | none => .panic ("index out of range: " ++ site)
+
+/-- `c.buf[c.rpos+lo : c.rpos+hi]` -/
+def sliceP (lo hi : Nat) (site : String) : D Bytes := fun s =>
+  if hi > s.rest.length ∨ lo > hi then .panic ("slice bounds out of range: " ++ site)
+  else .ok ((s.rest.drop lo).take (hi - lo)) s
+
+/-- `c.buf[c.rpos+lo:]` -/
+def sliceFromP (lo : Nat) (site : String) : D Bytes := fun s =>
+  if lo > s.rest.length then .panic ("slice bounds out of range: " ++ site)
+  else .ok (s.rest.drop lo) s
+
+/-- `c.rpos += n`.  The addition itself cannot fail in Go; a cursor beyond `len(c.buf)` would make the
+next `c.buf[c.rpos:]` panic.  `rest = c.buf[c.rpos:]` only exists while `c.rpos ≤ len(c.buf)`, so the
+model reports the step that leaves the buffer as the panic (conservative: the model panics no later
+than the code). -/
+def advanceP (n : Nat) (site : String) : D Unit := fun s =>
+  if n > s.rest.length then .panic ("cursor beyond the buffer: " ++ site)
+  else .ok () { s with rest := s.rest.drop n }
+
+/-- `c.rpos = c.Size()` -/
+def seekEnd : D Unit := fun s => .ok () { s with rest := [] }
+
+/-- `c.checkBounds(n)` = `c.rpos+n > len(c.buf)` -/
+def checkBounds (n : Nat) : D Bool := fun s => .ok (decide (n > s.rest.length)) s
+
 /-! ### raw primitives of chunk_reader.go (no trace) -/
 
-/-- `Uint8()`: `checkBounds(1)` → `io.EOF` -/
-def u8r : D UInt8 := fun s =>
-  match s.rest with
-  | [] => .err .eof s
-  | b :: r => .ok b { s with rest := r }
+/-- `Uint8()`: `if c.checkBounds(1) { return 0, io.EOF }; v := c.buf[c.rpos]; c.rpos++` -/
+def u8r : D UInt8 := do
+  if ← checkBounds 1 then fail .eof
+  else do
+    let v ← idxP 0 "Uint8: c.buf[c.rpos]"
+    advanceP 1 "Uint8: c.rpos++"
+    pure v
 
-/-- `Uint16()`: nothing is consumed when fewer than 2 bytes are left -/
-def u16r : D Nat := fun s =>
-  match s.rest with
-  | b0 :: b1 :: r => .ok (ofBe16 b0 b1) { s with rest := r }
-  | _ => .err .eof s
+/-- `Uint16()`: `if c.checkBounds(2) { return 0, io.EOF }; _ = c.buf[c.rpos+1];
+v := uint16(c.buf[c.rpos+1]) | uint16(c.buf[c.rpos])<<8; c.rpos += 2` — nothing is consumed when fewer
+than 2 bytes are left -/
+def u16r : D Nat := do
+  if ← checkBounds 2 then fail .eof
+  else do
+    let _ ← idxP 1 "Uint16: _ = c.buf[c.rpos+1]"
+    let b1 ← idxP 1 "Uint16: c.buf[c.rpos+1]"
+    let b0 ← idxP 0 "Uint16: c.buf[c.rpos]"
+    advanceP 2 "Uint16: c.rpos += 2"
+    pure (ofBe16 b0 b1)
 
-def u32r : D Nat := fun s =>
-  match s.rest with
-  | b0 :: b1 :: b2 :: b3 :: r => .ok (ofBe32 b0 b1 b2 b3) { s with rest := r }
-  | _ => .err .eof s
+/-- `Uint32()`: `checkBounds(4)`, `_ = c.buf[c.rpos+3]`, four index reads, `c.rpos += 4` -/
+def u32r : D Nat := do
+  if ← checkBounds 4 then fail .eof
+  else do
+    let _ ← idxP 3 "Uint32: _ = c.buf[c.rpos+3]"
+    let b3 ← idxP 3 "Uint32: c.buf[c.rpos+3]"
+    let b2 ← idxP 2 "Uint32: c.buf[c.rpos+2]"
+    let b1 ← idxP 1 "Uint32: c.buf[c.rpos+1]"
+    let b0 ← idxP 0 "Uint32: c.buf[c.rpos]"
+    advanceP 4 "Uint32: c.rpos += 4"
+    pure (ofBe32 b0 b1 b2 b3)
 
-def u64r : D Nat := fun s =>
-  match s.rest with
-  | b0 :: b1 :: b2 :: b3 :: b4 :: b5 :: b6 :: b7 :: r =>
-    .ok (ofBe64 b0 b1 b2 b3 b4 b5 b6 b7) { s with rest := r }
-  | _ => .err .eof s
+/-- `Uint64()`: `checkBounds(8)`, `_ = c.buf[c.rpos+7]`, eight index reads, `c.rpos += 8` -/
+def u64r : D Nat := do
+  if ← checkBounds 8 then fail .eof
+  else do
+    let _ ← idxP 7 "Uint64: _ = c.buf[c.rpos+7]"
+    let b7 ← idxP 7 "Uint64: c.buf[c.rpos+7]"
+    let b6 ← idxP 6 "Uint64: c.buf[c.rpos+6]"
+    let b5 ← idxP 5 "Uint64: c.buf[c.rpos+5]"
+    let b4 ← idxP 4 "Uint64: c.buf[c.rpos+4]"
+    let b3 ← idxP 3 "Uint64: c.buf[c.rpos+3]"
+    let b2 ← idxP 2 "Uint64: c.buf[c.rpos+2]"
+    let b1 ← idxP 1 "Uint64: c.buf[c.rpos+1]"
+    let b0 ← idxP 0 "Uint64: c.buf[c.rpos]"
+    advanceP 8 "Uint64: c.rpos += 8"
+    pure (ofBe64 b0 b1 b2 b3 b4 b5 b6 b7)
 
 /-- the `switch t` of `Bytes()` / `ReadStringList` once the tag byte is read: `none` for tag 0 -/
 def lenHdrK (t : UInt8) : D (Option Nat) :=
@@ -111,10 +179,23 @@ def lenHdr : D (Option Nat) := do let t ← u8r; lenHdrK t
 
 /-- the tail of `(*Chunk).Bytes()`: a reslice (no allocation); a short body hands out what is left
 with `io.EOF` and moves the cursor to the end.  `copy` = the caller is `StringVal()`, which converts
-the slice with `string(b)` (an allocation of `l` bytes) when, and only when, `Bytes()` succeeded. -/
-def bodyC (copy : Bool) (l : Nat) : D Bytes := fun s =>
-  if s.rest.length < l then .err .eof { s with rest := [] }
-  else .ok (s.rest.take l) { s with rest := s.rest.drop l, alloc := s.alloc + (if copy then l else 0) }
+the slice with `string(b)` (an allocation of `l` bytes) when, and only when, `Bytes()` succeeded.
+```
+if n := c.Size(); n < c.rpos+int(l) { o := c.buf[c.rpos:]; c.rpos = n; return o, io.EOF }
+o := c.buf[c.rpos : uint64(c.rpos)+l]
+c.rpos += int(l)
+return o, nil
+``` -/
+def bodyC (copy : Bool) (l : Nat) : D Bytes := do
+  if (← remaining) < l then do             -- `n < c.rpos+int(l)` (`l ≤ MaxSlice`: no overflow)
+    let _ ← sliceFromP 0 "Bytes: c.buf[c.rpos:]"
+    seekEnd
+    fail .eof
+  else do
+    let o ← sliceP 0 l "Bytes: c.buf[c.rpos : uint64(c.rpos)+l]"
+    advanceP l "Bytes: c.rpos += int(l)"
+    charge (if copy then l else 0)
+    pure o
 
 def bytesRawK (copy : Bool) : Option Nat → D Bytes
   | none => pure []
@@ -139,13 +220,47 @@ def bytes : D Bytes := do let b ← bytesRaw false; emit (.by b); pure b
 /-- `StringVal()` / `ReadString(&p)`: `string(b)` copies the bytes -/
 def str : D Bytes := do let b ← bytesRaw true; emit (.str b); pure b
 
+/-- `(*Chunk).Read(b)` with `len(b) = k`; `none` = `(0, io.EOF)`:
+```
+if c.Empty() { if c.Reset(); len(b) == 0 { return 0, nil }; return 0, io.EOF }
+n := copy(b, c.buf[c.rpos:])
+c.rpos += n
+return n, nil
+``` -/
+def chunkRead (k : Nat) : D (Option Bytes) := do
+  if (← remaining) = 0 then                         -- `c.Empty()`
+    if k = 0 then pure (some []) else pure none
+  else do
+    let src ← sliceFromP 0 "Read: c.buf[c.rpos:]"
+    let got := src.take k                           -- `copy(b, src)` moves `min(len(b), len(src))` bytes
+    advanceP got.length "Read: c.rpos += n"
+    pure (some got)
+
+/-- `io.ReadAtLeast(r, buf, min)` with `min = len(buf) = k` and `r` a Chunk:
+```
+for n < min && err == nil { nn, err = r.Read(buf[n:]); n += nn }
+if n >= min { err = nil } else if n > 0 && err == EOF { err = ErrUnexpectedEOF }
+```
+(`buf[n:]` reslices the caller's fixed-size array with `n < min = len(buf)` by the loop test.)
+Every successful `Read` of a non-empty buffer delivers at least one byte, so `k + 1` rounds are
+enough (`fuel`). -/
+def readAtLeast : Nat → Nat → Bytes → D (Bytes × Option Err)
+  | 0, _, _ => fun _ => .hang
+  | fuel + 1, k, acc =>
+    if ¬ (acc.length < k) then pure (acc, none)
+    else do
+      match ← chunkRead (k - acc.length) with
+      | none => pure (acc, some (if acc.isEmpty then .eof else .ueof))
+      | some got => readAtLeast fuel k (acc ++ got)
+
 /-- `io.ReadFull(r, buf[:k])` on a Chunk (`Chunk.Read` hands out what is there; an empty Chunk
 reports `io.EOF`) followed by the caller's `n != k` test -/
-def readFullC (k : Nat) : D Bytes := fun s =>
-  let got := s.rest.take k
-  let s' := { s with rest := s.rest.drop k, out := if got.isEmpty then s.out else .raw got :: s.out }
-  if got.length < k then .err (if got.isEmpty then .eof else .ueof) s'
-  else .ok got s'
+def readFullC (k : Nat) : D Bytes := do
+  let r ← readAtLeast (k + 1) k []
+  if r.1.isEmpty then pure () else emit (.raw r.1)
+  match r.2 with
+  | some e => fail e
+  | none => pure r.1
 
 /-- `(*ID).Read` / `(*ID).UnmarshalStream` into a zero ID -/
 def idRead : D Bytes := do
@@ -273,19 +388,26 @@ def readDeviceInfo (t : Nat) : D Unit :=
 
 /-! ### com.Packet.UnmarshalStream (the nested form inside a FlagMulti packet) -/
 
-/-- the tag loop `for i := uint16(0); i < t && i < PacketMaxTags; i++` -/
-def readTagsN : Nat → D Unit
-  | 0 => pure ()
-  | n + 1 => do
+/-- `p.Tags[i]` with `len(p.Tags) = len`: an index into the freshly made tag table (not the buffer),
+partial like every other index expression -/
+def tagIdx (len i : Nat) : D Unit := fun s =>
+  if i < len then .ok () s else .panic "index out of range: p.Tags[i]"
+
+/-- the tag loop `for i := uint16(0); i < t && i < PacketMaxTags; i++ { r.ReadUint32(&p.Tags[i]); … }`:
+`len` = `len(p.Tags)`, then the index `i` and the rounds left -/
+def readTagsN (len : Nat) : Nat → Nat → D Unit
+  | _, 0 => pure ()
+  | i, n + 1 => do
+    tagIdx len i
     let t ← u32
-    if t = 0 then fail .malformedTag else readTagsN n
+    if t = 0 then fail .malformedTag else readTagsN len (i + 1) n
 
 /-- `if t > 0 { p.Tags = make([]uint32, t); loop }` -/
 def readTags (t : Nat) : D Unit :=
   if t = 0 then pure ()
   else do
     mk t 4 "Packet.Tags"
-    readTagsN (min t Facts.packetMaxTags)
+    readTagsN t 0 (min t Facts.packetMaxTags)
 
 structure Pkt where
   id : Nat
